@@ -69,6 +69,12 @@ NextUnordered ==
   LET j == SetMin(PendingDone)
   IN SetMin(Range(doneB[j][1], doneB[j][2]) \ Yielded)
 
+\* completion order (serial callbacks): a result whose callback has returned must be the oldest pending one;
+\* a result whose callback is still running (registered, CbEnd not yet logged) must not overtake a pending one
+UnorderedBad(i) ==
+  IF \E j \in 1..Len(doneB) : i \in Range(doneB[j][1], doneB[j][2])
+  THEN i # NextUnordered ELSE PendingDone # {}
+
 Live(c) == c = call /\ phase = "running"
 
 (* Look-ahead allowed once the caller's initial dispatch loop is over: the bound fixed by the configuration,   *)
@@ -139,8 +145,7 @@ Why(e) ==
          ELSE IF e.i \notin okT THEN "C01.ResultOfUnfinishedTask"
          ELSE IF e.i \in Yielded THEN "C01.ResultYieldedTwice"
          ELSE IF Ordered /\ e.i # Len(out) THEN "C01.OutOfOrder"
-         ELSE IF ~Ordered /\ conf.serial /\ IsGen /\ (PendingDone = {} \/ e.i # NextUnordered)
-              THEN "C16.NotCompletionOrder"
+         ELSE IF ~Ordered /\ conf.serial /\ IsGen /\ UnorderedBad(e.i) THEN "C16.NotCompletionOrder"
          ELSE "ok"
     [] e.ev = "Close" ->
          IF ~(IsGen /\ phase = "running") THEN "harness.Close" ELSE "ok"
